@@ -158,6 +158,10 @@ func insertUtcTime(t time.Time) (seconds uint32, fraction uint32) {
 	// running extractUtcTime and then insertUtcTime will produce
 	// different results because of rounding that heppns twice.
 	// 1 is added to avoid truncating the second time.
-	fraction = uint32((((nanos % 1e9) + 1) << 32) / 1e9)
+	f := (((nanos % 1e9) + 1) << 32) / 1e9
+	if f > 0xFFFFFFFF {
+		f = 0xFFFFFFFF // 999999999 ns: the rounded up fraction does not fit in 32 bits
+	}
+	fraction = uint32(f)
 	return
 }
